@@ -982,4 +982,24 @@ func ruleC03SliceSib(c *Ctx, r *Rep) {
 		same := len(seqs[fn]) == 2 && len(ref) == 2 && seqs[fn][0] == ref[0] && seqs[fn][1] == ref[1]
 		r.Check(same, fn, fd.Pos(), "%s converts start/end with %v (sibling slice: %v; a write path that rounds a bound differently from the read path updates a different range than .[a:b] reads)", fn, seqs[fn], ref)
 	}
+	// (fourth session) and the two conversions round outward: the start's converter applies math.Floor, the end's math.Ceil
+	// (truncation toward zero is neither for a negative fractional bound: `[1,2,3,4] | .[-1.5:]` is [3,4], D29)
+	if len(ref) == 2 {
+		calls := func(fn, target string) bool {
+			d := c.Decl(c.Gojq, fn)
+			if d == nil {
+				return false
+			}
+			found := false
+			ast.Inspect(d.Body, func(m ast.Node) bool {
+				if call, ok := m.(*ast.CallExpr); ok && calleeName(info, call) == target {
+					found = true
+				}
+				return true
+			})
+			return found
+		}
+		fl, ce := calls(ref[0], "math.Floor"), calls(ref[1], "math.Ceil")
+		r.Check(fl && ce, "rounding:outward", decls["slice"].Pos(), "the start bound's converter %s applies math.Floor (%v) and the end bound's converter %s applies math.Ceil (%v): a fractional bound widens the slice on both sides, negative bounds included", ref[0], fl, ref[1], ce)
+	}
 }
